@@ -33,9 +33,10 @@ READS = {
     "source.brightness": {"source.brightness"}, "source.purity": {"source.purity"},
     "source.indistinguishability": {"source.indistinguishability"}, "source.probability_threshold": {"source.probability_threshold"},
     "source": set(),
-    "backend": {"backend.backend"}, "backend.backend": {"backend.backend"},
+    "backend": {"backend.backend", "settings.sampler_probability_threshold"}, "backend.backend": {"backend.backend"},   # handing the backend on = computing with it
     "backend.probability": set(),           # QuickSampler's private permanent backend: fixed at construction, not configurable
-    "backend.full_probability_distribution": {"backend.backend"},
+    "backend.full_probability_distribution": {"backend.backend", "settings.sampler_probability_threshold"},   # the backend truncates with the global setting
+    "settings.sampler_probability_threshold": {"settings.sampler_probability_threshold"},
     "post_select": {"post_select"}, "post_select.validate": {"post_select"},
     "photon_counting": {"photon_counting"},
 }
@@ -51,6 +52,8 @@ def chain(node):
         node = node.value
     if isinstance(node, ast.Name) and node.id == "self":
         return list(reversed(parts))
+    if isinstance(node, ast.Name) and node.id == "settings" and parts:
+        return ["settings"] + list(reversed(parts))       # the package-wide settings object: configuration like any attribute of self
     return None
 
 
